@@ -9,8 +9,8 @@ the value every catch yields, and a fixed probe evaluation compared with a fresh
 import json, os
 import vlib
 LEVEL = "fault_enumeration"
-SRC = ["h/h_c05.c", "h/h_vmerr.c", "wrap/w_vmerr_simulate.c", "wrap/w_vmerr_errctx.c"]
-STEM = ["simulate.c", "error_context.c"]
+SRC = ["h/h_c05.c", "h/h_vmerr.c", "wrap/w_vmerr_simulate.c", "wrap/w_vmerr_errctx.c", "wrap/w_backend.c"]
+STEM = ["simulate.c", "error_context.c", "backend.c"]
 JOBS = int(os.environ.get("VERIF_JOBS", "16"))
 HARNESSES = {"h_c05": (SRC, dict(replace_stem=STEM))}
 
@@ -40,7 +40,19 @@ RULE = ("nesting shapes = all compositions up to depth D of the frame kinds K (3
         "by the snapshot comparison (incl. depth of the error-context chain, also at the point where the API returns) and the probe; part "
         "'vital': destruct(master()) / destruct(simul_efun) while the reload fails by {syntax error in the file, error in create() of the new "
         "copy, valid_object() refuses, loader without euid} x {caught, uncaught} in a private copy of the mudlib, then the file is repaired and "
-        "names, find_object(), a successful destruct(master())+reload and the probe are checked (16 elements); one process per element")
+        "names, find_object(), a successful destruct(master())+reload and the probe are checked (16 elements); part 'tick': one whole "
+        "driver tick call_heart_beat() = heart beats of two objects, then the reset pass, the clean_up pass and the due call_outs, with "
+        "the error raised inside {call_out by name, call_out by function pointer, reset(), clean_up()} of a third object: a genuine "
+        "error() and a fault at EVERY dispatch k of that callback (77 elements); afterwards current_heart_beat / current_object / the "
+        "registers are compared with the state before the tick, the heart beats of the two other objects must still be enabled and must "
+        "run exactly once in the next tick, then the probe; part 'stackedge': \"Stack overflow\" raised by a checked one-value push with "
+        "sp == end_of_stack - 1: sites {push_number, push_object, push_real, push_undefined, copy_and_push_string, share_and_push_string, "
+        "push_constant_string called from C as the driver does for apply arguments (4 start alignments); LPC: push-group literal, negative byte "
+        "literal, const0, const1, number literal, float literal, this_object(), efun with constant argument} x {uncaught, inside catch} x EVERY "
+        "alignment 0..35 of the expression relative to the end of a 150-slot stack (recursion depth above 125 padding arguments: from 'fits' "
+        "to 'overflows in the padding') x the slot at end_of_stack holds a stale {freed local string, array still held by a global} "
+        "(1208 elements); afterwards registers as before, the reference count of the held array unchanged, an audit evaluation over the "
+        "held values, the probe; one process per element")
 
 ASSUME = ["driver-style entry = save_context/setjmp/restore_context/pop_context around apply(), as backend() and call_out() do",
           "num_objects_this_thread is not compared for the 32 shapes whose fault-free run already changes it (clone_object() inside a "
@@ -65,6 +77,12 @@ def fix_replays(ck):
             info["fail"]["index"] = 0
         elif first.startswith("api="):
             info["args"] = ["--part=api", "--" + first] + keep
+            info["fail"]["index"] = 0
+        elif first.startswith("se="):
+            info["args"] = ["--part=stackedge", "--" + first] + keep
+            info["fail"]["index"] = 0
+        elif first.startswith("tick="):
+            info["args"] = ["--part=tick", "--" + first] + keep
             info["fail"]["index"] = 0
 
 
@@ -95,7 +113,17 @@ def run(ck):
         ck.enum(p, ["--part=api"], "api", batch=16, deadline_s=30, jobs=J, timeout_ms=400000)
         ck.enum(a, ["--part=api", "--master=catch"], "asan-api-master-uses-catch", batch=16, deadline_s=30, jobs=J, timeout_ms=400000)
         ck.enum(a, ["--part=vital"], "asan-vital-object-reload-fails", batch=2, deadline_s=30, jobs=J, timeout_ms=400000)
+        ck.enum(p, ["--part=tick"], "tick", batch=16, deadline_s=30, jobs=J, timeout_ms=400000)
+        ck.enum(a, ["--part=tick", "--master=catch"], "asan-tick-master-uses-catch", batch=16, deadline_s=30, jobs=J, timeout_ms=400000)
+        ck.enum(p, ["--part=stackedge"], "stack-edge", batch=32, deadline_s=30, jobs=J, timeout_ms=400000)
+        ck.enum(a, ["--part=stackedge"], "asan-stack-edge", batch=32, deadline_s=40, jobs=J, timeout_ms=400000)
     else:
+        ck.enum(p, ["--part=tick"], "tick", batch=16, deadline_s=30, jobs=J, timeout_ms=400000)
+        ck.enum(p, ["--part=tick", "--master=catch"], "tick-master-uses-catch", batch=16, deadline_s=30, jobs=J, timeout_ms=400000)
+        ck.enum(a, ["--part=tick"], "asan-tick", batch=16, deadline_s=30, jobs=J, timeout_ms=400000)
+        ck.enum(p, ["--part=stackedge"], "stack-edge", batch=32, deadline_s=30, jobs=J, timeout_ms=400000)
+        ck.enum(a, ["--part=stackedge"], "asan-stack-edge", batch=32, deadline_s=40, jobs=J, timeout_ms=400000)
+        ck.enum(p, ["--part=stackedge", "--master=catch"], "stack-edge-master-uses-catch", batch=32, deadline_s=30, jobs=J, timeout_ms=400000)
         ck.enum(p, ["--part=vital"], "vital-object-reload-fails", batch=2, deadline_s=30, jobs=J, timeout_ms=400000)
         ck.enum(a, ["--part=vital"], "asan-vital-object-reload-fails", batch=2, deadline_s=30, jobs=J, timeout_ms=400000)
         ck.enum(p, ["--depth=2", "--kinds=core", "--mode=error", "--master=catch"], "d2-core-error-master-uses-catch", batch=64, deadline_s=200, jobs=J, timeout_ms=400000)
@@ -126,11 +154,13 @@ def selftest(ck):
     """break the observation (not the repo): each oracle must fire with its own key"""
     ex = build(ck)
     want = {1: "C05:sp-not-restored:driver-entry:fault-uncaught", 2: "C05:command_giver-not-restored:catch-point", 3: "C05:probe:",
-            4: "C05:error_context_chain-not-restored:api:", 5: "C05:sp-not-restored:vital-reload:", 6: "C05:vital-object-not-as-before:"}
+            4: "C05:error_context_chain-not-restored:api:", 5: "C05:sp-not-restored:vital-reload:", 6: "C05:vital-object-not-as-before:",
+            7: "C05:current_heart_beat-not-restored:tick:", 8: "C05:heart-beat-of-another-object-changed:tick:",
+            9: "C05:sp-not-restored:stack-edge:", 10: "C05:reference-count-changed-by-stack-overflow:"}
     bad = 0
     for st, sub in want.items():
         ck2 = vlib.Check("C05", "quick", 0, LEVEL)
-        a2 = ["--part=api"] if st == 4 else ["--part=vital"] if st >= 5 else ["--depth=1", "--kinds=call,catch,call_other", "--mode=error"]
+        a2 = ["--part=api"] if st == 4 else ["--part=stackedge"] if st >= 9 else ["--part=tick"] if st >= 7 else ["--part=vital"] if st >= 5 else ["--depth=1", "--kinds=call,catch,call_other", "--mode=error"]
         ck2.enum(ex["h_c05p"], a2 + ["--selftest=%d" % st], "selftest%d" % st, batch=64, jobs=JOBS)
         hit = [k for k in ck2.fails if sub in k]
         if ck2.broken or not hit:
